@@ -119,13 +119,13 @@ impl Display for LexerError {
                 let src_info = if let Some(file_name) = report_data.src_file.as_ref() {
                     format!(
                         "source file {file_name}:{}:{}",
-                        report_data.line + 1,
+                        report_data.line,
                         report_data.column
                     )
                 } else {
                     format!(
                         "line {}, column {}",
-                        report_data.line + 1,
+                        report_data.line,
                         report_data.column
                     )
                 };
